@@ -1,6 +1,7 @@
 package props
 
 import (
+	"bufio"
 	"fmt"
 	"os"
 	"runtime"
@@ -9,6 +10,7 @@ import (
 	"time"
 
 	"verifharness/evid"
+	"verifharness/fakemc"
 	"verifharness/stack"
 	"verifharness/wire"
 )
@@ -403,4 +405,107 @@ func c15Second() time.Duration {
 		noteHang()
 	}
 	return d
+}
+
+// TestC15Backfill: the cluster proxy's backfill mode (orcas.Backfill over two
+// cluster handlers): a get is answered with misses and what the source cluster
+// holds is copied to the destination.  The destination answers slowly, so that
+// a client which hangs up right after its request leaves while the copy is in
+// flight.  Everything opened for the client must be released, and the server
+// must still be there for the next client.
+func TestC15Backfill(t *testing.T) {
+	rec := evid.For("C15")
+	st := stack.Get(stack.Config{Shape: "backfill", Lock: "nolock", L1: "cluster", L2: "cluster"})
+	st.Reset()
+	for _, k := range []string{"ka", "kb"} {
+		st.L1.Put(k, fakemc.Entry{Value: []byte("source-" + k), Flags: 6})
+	}
+	st.L2.Before = func(r *fakemc.Req) {
+		if r.Opcode == fakemc.OpSet || r.Opcode == fakemc.OpSetQ {
+			time.Sleep(2 * time.Millisecond)
+		}
+	}
+	defer func() { st.L2.Before = nil }()
+	streams := []c15Stream{
+		{"get-hit", []wire.Cmd{{Kind: wire.Get, Keys: []string{"ka"}, Opaque: 10}}, true},
+		{"get-multi", []wire.Cmd{{Kind: wire.Get, Keys: []string{"ka", "kn", "kb"}, Opaque: 20}}, true},
+		{"get-quiet-batch", []wire.Cmd{{Kind: wire.Get, Keys: []string{"kb", "ka"}, NoopEnd: true, Opaque: 30}}, true},
+		{"set", []wire.Cmd{{Kind: wire.Set, Key: "kc", Value: []byte("swallowed"), Opaque: 40}}, true},
+		{"gets-then-quit", []wire.Cmd{{Kind: wire.Get, Keys: []string{"ka"}, Opaque: 50}, {Kind: wire.Get, Keys: []string{"kb"}, Opaque: 60}, {Kind: wire.Quit, Opaque: 70}}, true},
+	}
+	quiesce := func(baseL1, baseL2, baseG int) string {
+		deadline := time.Now().Add(hangBound())
+		for {
+			l1, l2, g := st.L1.OpenConns(), st.L2.OpenConns(), runtime.NumGoroutine()
+			if l1 <= baseL1 && l2 <= baseL2 && g <= baseG {
+				return ""
+			}
+			if time.Now().After(deadline) {
+				return fmt.Sprintf("source-cluster connections %d (baseline %d), destination %d (baseline %d), goroutines %d (baseline %d)", l1, baseL1, l2, baseL2, g, baseG)
+			}
+			time.Sleep(300 * time.Microsecond)
+		}
+	}
+	fresh := func() string {
+		// plain frames, one reply each (the backfill orchestrator answers only get, set and stat)
+		conn := st.Dial(0)
+		defer conn.Close()
+		conn.SetDeadline(time.Now().Add(hangBound()))
+		r := bufio.NewReader(conn)
+		conn.Write(wire.EncodeBinary(wire.Cmd{Kind: wire.Get, Keys: []string{"ka"}, Opaque: 0xF1}))
+		rep, err := wire.ReadBinReply(r)
+		if err != nil || rep.Opaque != 0xF1 || rep.Status != 1 {
+			return fmt.Sprintf("a fresh client's get is answered %v %s (backfill mode answers misses)", err, rep)
+		}
+		conn.Write(wire.EncodeBinary(wire.Cmd{Kind: wire.Set, Key: "kf", Value: []byte("x"), Opaque: 0xF2}))
+		rep, err = wire.ReadBinReply(r)
+		if err != nil || rep.Opaque != 0xF2 || rep.Status != 0 {
+			return fmt.Sprintf("a fresh client's set is answered %v %s", err, rep)
+		}
+		return ""
+	}
+	if msg := fresh(); msg != "" {
+		t.Fatalf("harness: backfill stack does not serve: %s", msg)
+	}
+	time.Sleep(20 * time.Millisecond)
+	cases := 0
+	for _, s := range streams {
+		var stream []byte
+		for _, cmd := range s.Cmds {
+			stream = append(stream, wire.EncodeBinary(cmd)...)
+		}
+		for p := 0; p <= len(stream); p++ {
+			for _, linger := range []time.Duration{0, 300 * time.Microsecond, 3 * time.Millisecond} {
+				if msg := quiesce(0, 0, 1<<30); msg != "" {
+					t.Fatalf("harness: stack not idle before the case: %s", msg)
+				}
+				baseG := runtime.NumGoroutine()
+				a1, a2 := st.L1.Accepts(), st.L2.Accepts()
+				conn := st.Dial(0)
+				for i := 0; i < 20000 && (st.L1.Accepts() < a1+2 || st.L2.Accepts() < a2+2); i++ {
+					time.Sleep(100 * time.Microsecond)
+				}
+				if p > 0 {
+					conn.Write(stream[:p])
+				}
+				if linger > 0 {
+					time.Sleep(linger)
+				}
+				conn.Close()
+				cases++
+				c := map[string]interface{}{"stream": s.Name, "prefix": p, "linger_us": linger.Microseconds()}
+				rec.Case(p > 0 && p < len(stream) || linger == 0, fmt.Sprintf("backfill|%s|%d|%v", s.Name, p, linger), "backfill-mode")
+				if msg := quiesce(0, 0, baseG); msg != "" {
+					rp := rec.Violation("TestC15Backfill", c)
+					t.Fatalf("C15 backfill mode, stream %s (%d bytes), client hangs up %v after byte %d: still held after the bound: %s; replay %s", s.Name, len(stream), linger, p, msg, rp)
+				}
+				if msg := fresh(); msg != "" {
+					rp := rec.Violation("TestC15Backfill", c)
+					t.Fatalf("C15 backfill mode, stream %s, client hung up %v after byte %d: %s; replay %s", s.Name, linger, p, msg, rp)
+				}
+			}
+		}
+	}
+	rec.ClassN("backfill-prefix-cases", int64(cases))
+	rec.Sample(true, map[string]interface{}{"orchestrator": "Backfill over two cluster handlers", "streams": len(streams), "prefix_cases": cases})
 }
